@@ -120,3 +120,35 @@ func (o *C04) Check(x *h.Exec, ev *h.Event) {
 		}
 	}
 }
+
+// Round: concurrent rounds in the plain build - the scheduler compares the
+// light snapshot of the shared roots at every context switch, which catches
+// mutate-then-restore and transient states no before/after comparison sees.
+func (o *C04) Round(x *h.Exec, ev *h.Event) {
+	if ev.Round == nil {
+		return
+	}
+	rr := x.S.RunRound(ev.Round, true)
+	x.Cov.Switches += int64(rr.Switches)
+	x.Cov.Interleave[hashInts(rr.Decisions)] = true
+	for _, qs := range ev.Round.Tasks {
+		x.Cov.Evaluations += int64(len(qs))
+	}
+	for _, d := range rr.SnapDiffs {
+		f := d
+		if i := indexByte(d, '\n'); i >= 0 {
+			f = d[:i]
+		}
+		x.Report("mutation", "query", f, "shared state differs at a context switch of a concurrent round (transient or lasting write by a running query):\n"+d, nil)
+		return
+	}
+}
+
+func indexByte(s string, b byte) int {
+	for i := 0; i < len(s); i++ {
+		if s[i] == b {
+			return i
+		}
+	}
+	return -1
+}
